@@ -44,6 +44,13 @@ class C13(Prop):
                         if sw == 2:
                             chs.append({"watcher": "poll"})
                         cases.append({"changes": chs, "fail_watch": [], "fail_unwatch": [], "det": True})
+        # corpus (always run): a poll watcher whose interval changes is a new kind; a watcher with nothing registered (every
+        # watch() failed, or the unwatch succeeded and the watch failed) is released when the path set becomes empty
+        for a, b in (("poll", "poll2"), ("poll2", "poll"), ("native", "poll2")):
+            cases.append({"changes": [{"watcher": a}, {"pathset": wp([("a", True), ("b", False)])}, {"watcher": b}], "fail_watch": [], "fail_unwatch": [], "det": True})
+        cases.append({"changes": [{"pathset": wp([("a", True)])}, {"pathset": wp([])}], "fail_watch": ["a"], "fail_unwatch": [], "det": True})
+        cases.append({"changes": [{"pathset": wp([("a", True), ("b", True)])}, {"pathset": wp([])}], "fail_watch": ["a", "b"], "fail_unwatch": [], "det": True})
+        cases.append({"changes": [{"pathset": wp([("a", True)])}, {"pathset": wp([("b", True)])}, {"pathset": wp([])}], "fail_watch": ["b"], "fail_unwatch": [], "det": True})
         n = 120 if tier == "quick" else 1500
         for i in range(n):
             chs = []
@@ -52,7 +59,7 @@ class C13(Prop):
                 if c < 0.65:
                     chs.append({"pathset": wp(rand_ps())})
                 elif c < 0.85:
-                    chs.append({"watcher": r.choice(["poll", "native"])})
+                    chs.append({"watcher": r.choice(["poll", "native", "poll2"])})
                 else:
                     chs.append({"throttle": r.choice([10, 50])})
             fw = [r.choice(NAMES)] if r.random() < 0.2 else []
@@ -61,7 +68,7 @@ class C13(Prop):
         for i in range(60 if tier == "quick" else 800):
             chs = [{"pathset": wp(rand_ps() or [("a", True)])}]
             for _ in range(r.randint(1, 3)):
-                ch = {"pathset": wp(rand_ps())} if r.random() < 0.7 else {"watcher": r.choice(["poll", "native"])}
+                ch = {"pathset": wp(rand_ps())} if r.random() < 0.7 else {"watcher": r.choice(["poll", "native", "poll2"])}
                 if r.random() < 0.6:
                     ch["inside_call"] = r.randint(0, 5)
                 else:
@@ -97,7 +104,7 @@ class C13(Prop):
                     ps = "(Some " + coq_list([f"({IDS[p['p']]}, {'true' if p['rec'] else 'false'})" for p in ch["pathset"]]) + ")"
                 k = "None"
                 if "watcher" in ch:
-                    k = f"(Some {1 if ch['watcher'] == 'poll' else 0})"
+                    k = f"(Some {dict(poll=1, poll2=2).get(ch['watcher'], 0)})"
                 chs.append(f"({ps}, {k})")
             fw = coq_list([str(IDS[x]) for x in case["fail_watch"]])
             terms.append(f"(eval_fs {fw} [] {coq_list(chs)})%N")
